@@ -107,6 +107,10 @@ def base_streams(seed, tier):
 
 
 
+def extra(ctx):
+    vcheck.new_names(ctx, "C11")      # every program the random code generator emits prints and parses back: its fresh names are names
+
+
 TECHNIQUE = ("Coq proof: the printed text of a program is the token sequence of its tree (split_whitespace over Display's \"( \" .. \" )\" and trim), each printable atom lexes back to itself (decimal i32 printer/parser inverse by digit-list induction), "
              "then the C03 tree theorem; float case parametric in the scalar codec law + differential round-trip runs through Item::to_string and PushParser::parse_program, float sweep on the implementation")
 DESIGN_REF = "DESIGN.md section 6.C11, 2.3"
